@@ -118,6 +118,7 @@ pub trait JsonParserUtils {
         ensures lex_post(old(self).rv2(), final(self).rv2(), r), progress(old(self).rv2(), final(self).rv2(), r),
             // Ok exactly consumes the first byte and the N expected bytes, which are the bytes that were there
             r is Ok ==> final(self).rv2().pending.len() + N + 1 == old(self).rv2().pending.len() && bytes_at(old(self).rv2().pending, 1, chars@), // @tobl L2.word
+            !is_io(r) && bytes_at(old(self).rv2().pending, 1, chars@) ==> r is Ok, // @tobl L4.accepts
 //@@ endfn
 //@@ fn jsonparserutils.read_true = src/json_parser.rs :: trait JsonParserUtils :: fn read_true
 //@@ ret r
@@ -125,6 +126,7 @@ pub trait JsonParserUtils {
         requires old(self).rv2().ok, old(self).rv2().cur is Some,
         ensures lex_post(old(self).rv2(), final(self).rv2(), r), progress(old(self).rv2(), final(self).rv2(), r),
             r is Ok ==> bytes_at(old(self).rv2().pending, 1, rue()), // @tobl L3.word
+            !is_io(r) && bytes_at(old(self).rv2().pending, 1, rue()) ==> r is Ok, // @tobl L4.accepts
             r is Ok ==> final(self).rv2().pending.len() + 4 == old(self).rv2().pending.len(), // @tobl L2.word_len
             r is Ok ==> r->Ok_0 == JsonValue::Boolean(true), // @tobl L2.value
 //@@ endfn
@@ -134,6 +136,7 @@ pub trait JsonParserUtils {
         requires old(self).rv2().ok, old(self).rv2().cur is Some,
         ensures lex_post(old(self).rv2(), final(self).rv2(), r), progress(old(self).rv2(), final(self).rv2(), r),
             r is Ok ==> bytes_at(old(self).rv2().pending, 1, alse()), // @tobl L3.word
+            !is_io(r) && bytes_at(old(self).rv2().pending, 1, alse()) ==> r is Ok, // @tobl L4.accepts
             r is Ok ==> final(self).rv2().pending.len() + 5 == old(self).rv2().pending.len(), // @tobl L2.word_len
             r is Ok ==> r->Ok_0 == JsonValue::Boolean(false), // @tobl L2.value
 //@@ endfn
@@ -143,6 +146,7 @@ pub trait JsonParserUtils {
         requires old(self).rv2().ok, old(self).rv2().cur is Some,
         ensures lex_post(old(self).rv2(), final(self).rv2(), r), progress(old(self).rv2(), final(self).rv2(), r),
             r is Ok ==> bytes_at(old(self).rv2().pending, 1, ull()), // @tobl L3.word
+            !is_io(r) && bytes_at(old(self).rv2().pending, 1, ull()) ==> r is Ok, // @tobl L4.accepts
             r is Ok ==> final(self).rv2().pending.len() + 4 == old(self).rv2().pending.len(), // @tobl L2.word_len
             r is Ok ==> r->Ok_0 == JsonValue::Null, // @tobl L2.value
 //@@ endfn
@@ -158,6 +162,7 @@ pub trait JsonParserUtils {
             // the elements are the values of the element texts, in order; the array text ends at its `]`
             ({ let p = old(self).rv2().pending;
                r is Ok ==> (match arr(p) { Some((vs, e)) => r->Ok_0 == json_array(vs) && 0 < e <= p.len() && final(self).rv2().pending =~= from(p, e), None => false }) }), // @tobl L3.elements
+            !is_io(r) && arrs(old(self).rv2().pending) ==> r is Ok, // @tobl L4.accepts
         decreases old(self).rv2().pending.len(), 1int,
 //@@ endfn
 //@@ fn jsonparserutils.read_object = src/json_parser.rs :: trait JsonParserUtils :: fn read_object
@@ -171,6 +176,7 @@ pub trait JsonParserUtils {
             // the members are name : value pairs in order, inserted as IndexMap::insert does; the object text ends at its `}`
             ({ let p = old(self).rv2().pending;
                r is Ok ==> (match obj(p) { Some((ms, e)) => r->Ok_0 == json_object(ms) && 0 < e <= p.len() && final(self).rv2().pending =~= from(p, e), None => false }) }), // @tobl L3.members
+            !is_io(r) && objs(old(self).rv2().pending) ==> r is Ok, // @tobl L4.accepts
         decreases old(self).rv2().pending.len(), 1int,
 //@@ endfn
 //@@ fn jsonparserutils.read_number = src/json_parser.rs :: trait JsonParserUtils :: fn read_number
@@ -191,6 +197,7 @@ pub trait JsonParserUtils {
                    &&& (!num_is_double(p) && num_sign(p) == 0 && parse_of::<u64>(t) is None ==> parse_of::<f64>(t) is Some && r->Ok_0 == json_of_f64(parse_of::<f64>(t)->0))
                    &&& (!num_is_double(p) && num_sign(p) == 1 && parse_of::<i64>(t) is None ==> parse_of::<f64>(t) is Some && r->Ok_0 == json_of_f64(parse_of::<f64>(t)->0))
                } }), // @tobl L2.number_value
+            !is_io(r) && num_simple(old(self).rv2().pending) ==> r is Ok, // @tobl L4.accepts
 //@@ endfn
 //@@ fn jsonparserutils.read_string = src/json_parser.rs :: trait JsonParserUtils :: fn read_string
 //@@ ret r
@@ -204,12 +211,14 @@ pub trait JsonParserUtils {
                r is Ok ==> (match (r->Ok_0, str_dec(p, 1, Seq::empty())) {
                    (JsonValue::String(s), Some((bytes, k))) => str_bytes(s@) == bytes && final(self).rv2().pending =~= from(p, k + 1),
                    _ => false }) }), // @tobl L3.decode
+            !is_io(r) && (match str_dec(old(self).rv2().pending, 1, Seq::empty()) { Some((bytes, k)) => valid_utf8(bytes), None => false }) ==> r is Ok, // @tobl L4.accepts
 //@@ endfn
 //@@ fn jsonparserutils.parse_to_double = src/json_parser.rs :: trait JsonParserUtils :: fn parse_to_double
 //@@ ret r
 //@@ header
         ensures !is_io(r), r is Ok ==> r->Ok_0 is Number,
             r is Ok ==> parse_of::<f64>(str@) is Some && r->Ok_0 == json_of_f64(parse_of::<f64>(str@)->0), // @tobl L2.double
+            (parse_of::<f64>(str@) matches Some(f) && f64_finite(f)) ==> r is Ok, // @tobl L4.accepts
 //@@ endfn
 }
 
@@ -258,7 +267,7 @@ impl<R: Read> JsonParserUtils for Reader<R> {
         let ghost q = from(pp, 1);
         let ghost w2 = ws_run(q) as int;
         broadcast use js::lemma_from_from, jv::group_jv, jt::group_json_names;
-        proof { lemma_arr(pp); }
+        proof { lemma_arr(pp); lemma_arrs(pp); }
 //@@ loop 1
             invariant
             rview(self).ok, self.name() == old(self).name(),
@@ -269,6 +278,7 @@ impl<R: Read> JsonParserUtils for Reader<R> {
                 0 <= q.len() - self.pending().len() <= q.len(),
                 self.pending() =~= from(q, q.len() - self.pending().len()),
                 items(q, q.len() - self.pending().len(), array@) == items(q, w2, Seq::empty()),
+                arrs(pp) ==> itemss(q, q.len() - self.pending().len()),
             decreases self.pending().len(),
 //@@ after#1 "self.eat_whitespace()?;"
         proof {
@@ -285,7 +295,7 @@ impl<R: Read> JsonParserUtils for Reader<R> {
             let ghost i: int = q.len() - self.pending().len();
             let ghost acc0 = array@;
             broadcast use js::lemma_from_from, jv::group_jv, jt::group_json_names;
-            proof { lemma_items(q, i, acc0); }
+            proof { lemma_items(q, i, acc0); lemma_itemss(q, i); }
 //@@ after "array.push(value);"
             let ghost n: int = (pv(from(q, i))->0).1;
             proof {
@@ -328,7 +338,7 @@ impl<R: Read> JsonParserUtils for Reader<R> {
         let ghost q = from(pp, 1);
         let ghost w2 = ws_run(q) as int;
         broadcast use js::lemma_from_from, jv::group_jv, jt::group_json_names;
-        proof { lemma_obj(pp); }
+        proof { lemma_obj(pp); lemma_objs(pp); }
 //@@ loop 1
             invariant
             rview(self).ok, self.name() == old(self).name(),
@@ -339,6 +349,7 @@ impl<R: Read> JsonParserUtils for Reader<R> {
                 0 <= q.len() - self.pending().len() <= q.len(),
                 self.pending() =~= from(q, q.len() - self.pending().len()),
                 members(q, q.len() - self.pending().len(), map.entries()) == members(q, w2, Seq::empty()),
+                objs(pp) ==> memberss(q, q.len() - self.pending().len()),
             decreases self.pending().len(),
 //@@ after#1 "self.eat_whitespace()?;"
         proof {
@@ -366,7 +377,7 @@ impl<R: Read> JsonParserUtils for Reader<R> {
             let ghost c: int = i + n + w + 1;
             let ghost n2: int = (pv(from(q, c))->0).1;
             let ghost w3: int = ws_run(from(q, c + n2)) as int;
-            proof { lemma_members(q, i, acc0); }
+            proof { lemma_members(q, i, acc0); lemma_memberss(q, i); }
 //@@ before#2 "self.eat_whitespace()?;"
                         proof {
                             assert(pv(from(q, i)) == Some((JsonValue::String(key), n)));
@@ -534,6 +545,41 @@ impl<R: Read> JsonParserUtils for Reader<R> {
                                         assert(hexv(c) == Some(d));
                                         assert(hex_acc(pp, idx + 3, k + 1) == Some((chr << 4) | d));
                                     }
+//@@ before#1 "return Err(JsonParserError::UnexpectedEof(self.where_am_i()));"
+                    proof { assert(str_dec(pp, idx + 1, c0) is None); }
+//@@ before#2 "return Err(JsonParserError::UnexpectedEof(self.where_am_i()));"
+                        proof { assert(pp[idx + 1] == Some(0x5cu8)); assert(at(pp, idx + 2) is None); assert(str_dec(pp, idx + 1, c0) is None); }
+//@@ before#3 "return Err(JsonParserError::UnexpectedEof(self.where_am_i()));"
+                                    proof {
+                                        let k = it4.index@ as int;
+                                        assert(at(pp, idx + 3 + k) is None);
+                                        reveal_with_fuel(hex_acc, 5);
+                                        assert(hex_acc(pp, idx + 3, 4) is None);
+                                        assert(pp[idx + 1] == Some(0x5cu8) && at(pp, idx + 2) == Some(0x75u8));
+                                        assert(str_dec(pp, idx + 1, c0) is None);
+                                    }
+//@@ before#1 "return Err(create_unexpected_character("
+                                            proof {
+                                                let k = it4.index@ as int;
+                                                assert(at(pp, idx + 3 + k) == Some(c));
+                                                assert(hexv(c) is None);
+                                                reveal_with_fuel(hex_acc, 5);
+                                                assert(hex_acc(pp, idx + 3, 4) is None);
+                                                assert(pp[idx + 1] == Some(0x5cu8) && at(pp, idx + 2) == Some(0x75u8));
+                                                assert(str_dec(pp, idx + 1, c0) is None);
+                                            }
+//@@ before "return Err(JsonParserError::InvalidChacterHex("
+                                proof {
+                                    assert(pp[idx + 1] == Some(0x5cu8) && at(pp, idx + 2) == Some(0x75u8));
+                                    assert(str_dec(pp, idx + 1, c0) is None);
+                                }
+//@@ before#2 "return Err(create_unexpected_character("
+                        proof {
+                            assert(pp[idx + 1] == Some(0x5cu8));
+                            assert(at(pp, idx + 2) == Some(ch));
+                            assert(esc_byte(ch) is None && ch != 0x75u8);
+                            assert(str_dec(pp, idx + 1, c0) is None);
+                        }
 //@@ loop-end 1
             proof {
                 let x = pp[idx + 1]->Some_0;
@@ -556,6 +602,8 @@ impl<R: Read> JsonParserUtils for Reader<R> {
                                 pp == old(self).pending(), chars@ == c0, idx == pp.len() - l0, 0 <= it4.index@ <= 4,
                                 rest_at(pp, self.rest(), idx + 3 + it4.index@), self.cur() == pp[idx + 2 + it4.index@],
                                 hex_acc(pp, idx + 3, it4.index@ as int) == Some(chr),
+                                0 <= idx, idx + 2 < pp.len(), pp[idx + 1] == Some(0x5cu8), at(pp, idx + 2) == Some(0x75u8),
+                                str_dec(pp, idx + 1, c0) == str_dec(pp, 1, Seq::empty()),
 //@@ loop 3 iter itb
                                     invariant
                                         self.pending().len() < l0,
@@ -601,6 +649,8 @@ impl<R: Read> JsonParser for Reader<R> {
             lemma_str_dec_bounds(from(p, w), 1, Seq::empty());
             lemma_pv(p);
             lemma_tv(from(p, w));
+            lemma_pvs(p);
+            lemma_tvs(from(p, w));
             assert(w < p.len() ==> p.subrange(w, p.len() as int) == from(p, w));
         }
 //@@ endfn
